@@ -958,7 +958,8 @@ fn duplex_enumeration(depth: usize) -> (u64, u64, Option<(String, String, serde_
         Shut(u8),
         Flush(u8),
     }
-    let ops = [D::W(0, 1), D::W(0, 3), D::R(1, 1), D::R(1, 8), D::Shut(0), D::Flush(0), D::W(1, 2), D::R(0, 2), D::Shut(1)];
+    // (R(1, 0): a read with no free room — a readiness probe — must not be mistaken for end of stream)
+    let ops = [D::W(0, 1), D::W(0, 3), D::R(1, 1), D::R(1, 8), D::R(1, 0), D::Shut(0), D::Flush(0), D::W(1, 2), D::R(0, 2), D::Shut(1)];
     let mut n = 0u64;
     let mut classes: BTreeSet<String> = BTreeSet::new();
     let mut viol = None;
@@ -1014,13 +1015,13 @@ fn duplex_enumeration(depth: usize) -> (u64, u64, Option<(String, String, serde_
                                 Seen::ReadBytes(b) => {
                                     let want: Vec<u8> = fifo[src].iter().take(b.len()).copied().collect();
                                     if b != want { viol = viol.or(err(format!("read-data: got {b:?}, the peer wrote {want:?} next"))); }
-                                    if b.is_empty() && !(shut[src] && fifo[src].is_empty()) { viol = viol.or(err("read-eof: end of stream although the peer has not shut down / data is buffered".to_string())); }
+                                    if b.is_empty() && cap > 0 && !(shut[src] && fifo[src].is_empty()) { viol = viol.or(err("read-eof: end of stream although the peer has not shut down / data is buffered".to_string())); }
                                     if b.len() < cap.min(fifo[src].len()) { viol = viol.or(err(format!("read-short: {} bytes delivered, {} available for capacity {cap}", b.len(), fifo[src].len()))); }
                                     for _ in 0..b.len() { fifo[src].pop_front(); }
                                     trace.push(if b.is_empty() { 'z' } else { 'r' });
                                 }
                                 Seen::Pending => {
-                                    if !fifo[src].is_empty() || shut[src] { viol = viol.or(err("read-pending: Pending although data or end of stream is available".to_string())); }
+                                    if cap > 0 && (!fifo[src].is_empty() || shut[src]) { viol = viol.or(err("read-pending: Pending although data or end of stream is available".to_string())); }
                                     trace.push('P');
                                 }
                                 s => viol = viol.or(err(format!("read-unexpected: {s:?}"))),
